@@ -15,9 +15,9 @@ func init() {
 
 func c01Plan(c *core.Ctx) (plan, int) {
 	if c.Thorough() {
-		return plan{fullDepth: 4, coreDepth: 6, strDepth: 2, pairDepth: 2, alphabet: tm.REG}, 4
+		return plan{dupDepth: 3, fullDepth: 4, coreDepth: 6, strDepth: 2, pairDepth: 2, alphabet: tm.REG}, 4
 	}
-	return plan{fullDepth: 3, coreDepth: 4, strDepth: 2, pairDepth: 1, alphabet: tm.REG}, 3
+	return plan{dupDepth: 3, fullDepth: 3, coreDepth: 4, strDepth: 2, pairDepth: 1, alphabet: tm.REG}, 3
 }
 
 func runC01(c *core.Ctx, r *core.Result) {
@@ -63,6 +63,13 @@ func runC01(c *core.Ctx, r *core.Result) {
 					}
 					prevWire = w
 					cur = next
+				}
+				// the order of use does not matter: a twin that is encoded
+				// before any of its methods has been called arrives the same
+				cold, _ := tm.HopK(t.Build())
+				nstates++
+				if d := s0.Diff(tm.ShapeOf(cold)); d != "" {
+					return fail("shape:cold-hop1", "an error transferred before any other use arrives with a different cause tree: %s", d)
 				}
 				return ""
 			})
